@@ -158,6 +158,37 @@ CLAIMED = {
        "the model); direct oracle: each stored private key opens a fresh hpke_seal to the node's public key, none for blank nodes, none missing, fresh keys on the committer's path.",
   note="Trusted: Lean kernel, tree model validated by the stream, harness. Side conditions made explicit by the proofs: NonEmptyInv (a filtered path node is blank), fresh stamps.",
   ref="DESIGN.md §4 C01/C09"),
+ "C03": dict(
+  technique="Lean 4 proof (generated signed/MACed/AEAD field lists cover every wire field; binding and Dolev-Yao theorems for free crypto symbols; validated update path => decap total) + translator + mutation / replay / insider sweep on real receivers",
+  text="Theorems MlsVerif.Props.C03: (a) by decide over the field lists GENERATED from the Rust sources every run: each wire field of PublicMessage, PrivateMessage, GroupInfo, KeyPackage and "
+       "LeafNode is covered by the signature, the membership MAC or the AEAD associated data, and the signature is not part of its own input; (b) for injective (free) Sig/Mac/Aead: an accepted "
+       "message agrees with the honestly sent one on every covered field, a message verified under another group context / epoch / sender or with any modified content field is rejected, and an "
+       "accepted signature or tag was produced by a holder of the key (Dolev-Yao derivability); (c) insider: a path accepted by the un-filtering loop of validate_update_path (incl. the length "
+       "check added by fix F11) makes decap total - never an index out of bounds (validated_path_no_oob). Tie: translator + per quick run ~12k mutated / replayed / re-attributed / insider re-signed "
+       "messages delivered to real receivers (each must be an error, never a panic or acceptance) and ~1.9k `unfilter` rows from too-short / too-long update paths with consistent hashes on sparse trees.",
+  note="Trusted: Lean kernel; free-symbol idealisation of signature / MAC / AEAD; field-list extractor of tools/translate.py; harness. Exhaustive single-bit flips only for the first scenario of the "
+       "thorough tier (sampled otherwise). Fixed defect found here: F11 (short update path with consistent parent hash panicked every receiver above the cut).",
+  ref="DESIGN.md §4 C03"),
+ "C10": dict(
+  technique="Lean 4 proof (one rule set, two strategies: whatever the sending filter keeps, the strict receiving mode accepts unchanged; rule lemmas; path requirement) + random histories with offending proposals replayed on the model in both modes",
+  text="Theorems MlsVerif.Props.C10 on the proposal-filter model (apply_proposals_from_member + batch_edit incl. the revert-all branch): send_accepted (for EVERY bundle, tree and committer, the "
+       "bundle kept in send mode is accepted in receive mode with the same tree, added leaves and applied set), unused_agree / receivers_report_committed (the result is a function of strategy, "
+       "committer, resolved bundle and tree), applied_sublist, by_value_kept, one `Enforced` lemma per RFC rule (offender by value => commit fails; by reference => dropped; received => rejected), "
+       "path_required_iff / path_required_agree, the canPropose sender/type table. Tie: every commit of random histories (valid + 8 kinds of offending by-reference proposals incl. colluding "
+       "updates with colliding HPKE keys, by-value extras) is a `filter send` and a `filter receive` row (tree, ordered bundle -> applied set, path flag | error) replayed on the compiled model; "
+       "direct oracle: every receiver accepts and reports the committer's applied / unused proposals.",
+  note="Trusted: Lean kernel; hand-written filter model validated by the rows; payload validity (signature, lifetime, capabilities, identity verdict, PSK presence) is an attribute of the abstract "
+       "proposal. Group-context-extension and re-init mixes are proved on the model but not generated. Fixed defects found here: F1, F16 (revert-all lost leaves).",
+  ref="DESIGN.md §4 C10"),
+ "C18": dict(
+  technique="Lean 4 proof (PSK chain injective in the ordered (id, nonce, value) list for an injective KDF; every epoch secret determines the PSK secret) + PSK-commit scenarios on real members, secrets recomputed by the model",
+  text="Theorems MlsVerif.Props.C18: under FreePsk (extract / expand-with-label injective) psk_injective_iff, changing_any_component_changes_secret (value, id, nonce, order, count), "
+       "epoch_binds_inputs / epoch_binds_psk_list / welcome_binds_psk_list (every secret of the new epoch and the Welcome key and nonce determine joiner secret, context and PSK list), "
+       "holders_agree, too_many_psks_rejected; FreePsk is satisfiable (term-algebra Prim). Tie: per quick run 200 PSK commits on real members (external / resumption, by value / by reference, "
+       "1-4 PSKs, per-member same / different / missing value, retention and join epoch) with the direct oracle (exactly the holders advance and agree; others reject unchanged; joiner needs the "
+       "PSKs) and ~1.6k rows where the compiled model recomputes psk_secret and the epoch secrets byte for byte.",
+  note="Trusted: Lean kernel; injective-KDF idealisation (a real hash is not injective: the theorem is the symbolic statement); Lean HKDF reference for the byte rows; harness.",
+  ref="DESIGN.md §4 C18"),
 }
 PENDING_REASON = "check not built yet in this session (planned, see DESIGN.md §8); not claimed until its check exists"
 
